@@ -9,6 +9,7 @@ import DK.Props.C05
 import DK.Props.C06
 import DK.Props.C07
 import DK.Props.C07tree
+import DK.Props.C07mono
 import DK.Props.C08
 import DK.Props.C09
 import DK.Props.C10
